@@ -192,6 +192,41 @@ func genCanon(leanRoot string) {
 		return true
 	})
 
+	// --- every `if … { continue | break | goto L }` of the four algorithm files, in source order: loop control
+	var loopBranches []string
+	for _, name := range []string{"algorithm_canonicalization.go", "algorithm_hash_first_degree_quads.go", "algorithm_hash_n_degree_quads.go", "algorithm_hash_related_blank_node.go"} {
+		ast.Inspect(parse(name), func(n ast.Node) bool {
+			if v, ok := n.(*ast.IfStmt); ok && len(v.Body.List) == 1 {
+				if br, ok := v.Body.List[0].(*ast.BranchStmt); ok {
+					c := ""
+					if v.Init != nil {
+						c = canonExprString(fset, v.Init) + "; "
+					}
+					c += canonExprString(fset, v.Cond)
+					t := br.Tok.String()
+					if br.Label != nil {
+						t += " " + br.Label.Name
+					}
+					loopBranches = append(loopBranches, strings.Join(strings.Fields(c), " ")+" => "+t)
+				}
+			}
+			return true
+		})
+	}
+	// any break/continue/goto that is NOT the sole statement of an if body (none expected)
+	otherBranches := 0
+	for _, name := range []string{"algorithm_canonicalization.go", "algorithm_hash_first_degree_quads.go", "algorithm_hash_n_degree_quads.go", "algorithm_hash_related_blank_node.go"} {
+		total := 0
+		ast.Inspect(parse(name), func(n ast.Node) bool {
+			if br, ok := n.(*ast.BranchStmt); ok && br.Tok != token.FALLTHROUGH {
+				total++
+			}
+			return true
+		})
+		otherBranches += total
+	}
+	otherBranches -= len(loopBranches)
+
 	// --- every slices.SortFunc call of the four algorithm files, in source order: what is sorted and by what
 	var sortCalls []string
 	for _, name := range []string{"algorithm_canonicalization.go", "algorithm_hash_first_degree_quads.go", "algorithm_hash_n_degree_quads.go", "algorithm_hash_related_blank_node.go"} {
@@ -226,6 +261,7 @@ func genCanon(leanRoot string) {
 	fmt.Fprintf(&sb, "/-- canonicalize.go: identifierIssuer.Clone and the identifier of a temporary issuer -/\ndef cloneKnown : String := %s\ndef cloneOrder : String := %s\ndef tempIdentifier : String := %s\n\n", canonLeanStr(cloneKnown), canonLeanStr(cloneOrder), canonLeanStr(tempID))
 	fmt.Fprintf(&sb, "/-- canonicalize_config.go -/\ndef maxPermutations : Nat := %s\ndef maxRecursionDepth : Nat := %s\ndef c14nFormat : String := %s\n\n", nat(maxPerm), nat(maxDepth), canonLeanStr(c14nFmt))
 	fmt.Fprintf(&sb, "/-- algorithm_canonicalization.go -/\ndef tempPrefix : String := %s\n\n/-- slices.SortFunc calls of the algorithm files -/\ndef sortCalls : List String := %s\n\n", canonLeanStr(tempPrefix), list(sortCalls))
+	fmt.Fprintf(&sb, "/-- loop control of the algorithm files: every `if cond { continue|break|goto }`, and the number of branch statements elsewhere -/\ndef loopBranches : List String := %s\ndef otherBranches : Nat := %d\n\n", list(loopBranches), otherBranches)
 	sb.WriteString("end RdfModel.Gen.CanonFacts\n")
 	writeIfChanged(filepath.Join(leanRoot, "RdfModel", "Gen", "CanonFacts.lean"), sb.String())
 }
